@@ -3,6 +3,7 @@ import VecModel.Lemmas.BPE
 import VecModel.Props.C09
 import Mathlib.Data.Matrix.Mul
 import VecModel.Props.C16
+import VecModel.Model.EdgeList
 /-
   C02 — fit_transform(X) equals fit(X).transform(X).
   The pipelines that the code keeps separate are modelled separately and proved equal:
@@ -75,5 +76,46 @@ theorem lz_fit_transform_eq_transform {κ : Type} [DecidableEq κ] (h : List Nat
     (hfit : LZ.fitTransform h cap base X = .ok (rows, cols)) :
     LZ.transform h cap base cols X = .ok rows :=
   (LZ.phrase_column_stable h cap base X rows cols hfit).1
+
+/-- a pivot that succeeded with any combination of validity filters kept exactly the edges whose two
+labels are in the dictionaries — so the fully filtered pivot of `transform` returns the same entries -/
+theorem edgelist_pivot_checked_of_ok (rd cd : List (Int × Nat)) (a b : Bool) :
+    ∀ (E : List EdgeList.Edge) (es : List Counts.Entry),
+      EdgeList.pivot rd cd a b E = .ok es → EdgeList.pivot rd cd true true E = .ok es
+  | [], es, h => by simpa [EdgeList.pivot] using h
+  | e :: rest, es, h => by
+    simp only [EdgeList.pivot] at h ⊢
+    cases hrest : EdgeList.pivot rd cd a b rest with
+    | error err => simp [hrest] at h
+    | ok more =>
+      rw [hrest] at h
+      rw [edgelist_pivot_checked_of_ok rd cd a b rest more hrest]
+      cases hr : Counts.lookup rd e.1 <;> cases hc : Counts.lookup cd e.2.1 <;>
+        cases a <;> cases b <;> simp_all
+
+/-- **EdgeListVectorizer**: `fit_transform` returns the matrix pivoted during `fit` (`_train_matrix`),
+`transform` pivots again with both validity filters on and the fitted shape; whenever `fit` succeeds
+the two are the same matrix — learned, supplied or joint dictionaries, any edge list. -/
+theorem edgelist_fit_transform_eq_transform (joint : Bool) (rowD colD : Option (List (Int × Nat)))
+    (E : List EdgeList.Edge) (m : EdgeList.Fitted) (hfit : EdgeList.fit joint rowD colD E = .ok m) :
+    EdgeList.transform m E = .ok m.train := by
+  unfold EdgeList.fit at hfit
+  split at hfit
+  · cases hfit
+  · rename_i rd cd chkR chkC _
+    split at hfit
+    · cases hfit
+    · rename_i es hp
+      split at hfit
+      · cases hfit
+      · rename_i M hM
+        cases hfit
+        simp only [EdgeList.transform, edgelist_pivot_checked_of_ok rd cd chkR chkC E es hp, hM]
+
+/-- non-vacuity: a supplied row dictionary that filters one edge (label 3), a learned column side,
+a duplicated edge; `fit` succeeds, so the theorem applies -/
+example : ((EdgeList.fit false (some [(1, 0), (2, 1)]) none
+    [(1, 10, 1), (3, 10, 2), (2, 11, 1/2), (1, 10, 1)]).toOption.isSome) = true := by
+  decide +kernel
 
 end VecModel.C02
